@@ -261,7 +261,12 @@ def check(ctx):
                    "DateTime text outside strict ISO-8601 (dateutil accepts much more), base64 text with characters outside the alphabet, and non-ASCII digits are reported as Unsupported by the model and skipped",
                    "raw XML elements are compared as infosets (namespace, local name, attributes, text, children), not as serialised text",
                    "extraction + driver.ml, cross-checked against vm_compute on a sample"]
-    cases = []
+    from opcua_tools import ua_data_types as T
+    # a fixed corpus that runs first: values that compare equal but must be written differently (anything keyed by == would confuse them)
+    cases = [T.UADouble(0.0), T.UADouble(-0.0), T.UAFloat(-0.0), T.UAFloat(0.0), T.UADouble(1.0), T.UADouble(1),
+             T.UAListOf((T.UADouble(-0.0), T.UADouble(0.0)), "Double"), T.UAListOf((T.UAFloat(0.0), T.UAFloat(-0.0)), "Float"),
+             T.UAEURange(low=-0.0, high=0.0), T.UAEURange(low=0.0, high=-0.0)]
+    n_corpus = len(cases)
     n = 250 if ctx.quick() else 6000
     for _ in range(n):
         v = gen_value(rng)
@@ -272,7 +277,7 @@ def check(ctx):
     unsupported = 0
     for i, v in enumerate(cases):
         os.environ["TZ"] = tzs[i % 3]; time.tzset()
-        for xmlns in ((True, False) if (i % 4 == 0) else (True,)):
+        for xmlns in ((True, False) if (i % 4 == 0 or i < n_corpus) else (True,)):
             enc, out, fails = judge_value(v, xmlns)
             sx = py2sx(v)
             floats = uaconv.texts_of_xml(enc[1] if enc[0] == "ok" and xmlns else ('<V xmlns="%s">%s</V>' % (TYPES_NS, enc[1]) if enc[0] == "ok" else "<a/>"))
